@@ -106,6 +106,14 @@ def run(e: Engine, rep: Report):
             rep.add('R4.10', o.where, o.text, o.status, o.what, o.loc,
                     o.witness, o.nontrivial, o.reason)
     rep.evaluations += sub.evaluations
+    rep.rule('R4.11', 'the keep-awake reference of AioFile is given back '
+             'only where it was taken: on every path (exceptional ones '
+             'included) a _stop_keep_awake_thread() follows a '
+             '_start_keep_awake_thread() of the same call - a stop without '
+             'a start trips the assertion in it, which replaces the '
+             'OSError the start-up scan is prepared for (the scan dies at '
+             'the first envelope without meta)')
+    r411(e, rep)
     rep.floor('R4.1', 6, 'file-system write sites / ordering obligations')
 
 
@@ -702,4 +710,66 @@ def r47(e: Engine, rep: Report):
                           reason='only DiskStorage.remove deletes')
     if n < 2:
         rep.error('anchor vanished: uses of delete_env/delete_meta (%d < 2)'
+                  % n)
+
+
+# ------------------------------------------------------------------- R4.11
+def r411(e: Engine, rep: Report):
+    n = 0
+    for meth in ('dump', 'load'):
+        ctx = e.method_ctx('slimta.diskstorage.AioFile', meth)
+
+        def raises(b, nd, res):
+            # anything that is not one of our own helpers may fail (open,
+            # mkstemp, a callable handed in, aio requests)
+            if nd.kind != 'call':
+                return set()
+            nm = e.call_name(nd) or ''
+            if nm in ('_start_keep_awake_thread', '_stop_keep_awake_thread'):
+                return set()
+            if res is not None and res.targets and not res.externals and \
+                    not res.unresolved:
+                return set()
+            return {'builtins.OSError'}
+        g = e.build(ctx, raises=raises, assert_raises=False,
+                    inline=e.inline_same_self(deny=[
+                        '_start_keep_awake_thread',
+                        '_stop_keep_awake_thread']), max_depth=3)
+        where = ctx.func.qname
+        rep.functions.add(where)
+        starts = [x for x in g.calls()
+                  if e.call_name(x) == '_start_keep_awake_thread']
+        stops = [x for x in g.calls()
+                 if e.call_name(x) == '_stop_keep_awake_thread']
+        if not starts or not stops:
+            rep.error('anchor vanished: keep-awake start / stop in %s'
+                      % where)
+            continue
+
+        def step(nd, label, st):
+            if isinstance(label, tuple):
+                return st
+            if nd in starts:
+                return min(2, st + 1)
+            if nd in stops:
+                return st - 1 if st > 0 else -1
+            return st
+        for sp in stops:
+            n += 1
+            rep.evaluations += 1
+            w = dataflow.typestate_witness(
+                g, 0, step, lambda nd, st, sp=sp: nd is sp and st <= 0)
+            rep.check(w is None, 'R4.11', where,
+                      'stop only after a start: `%s`' % sp.text(40),
+                      '%s can reach _stop_keep_awake_thread() on a path on '
+                      'which it has not called _start_keep_awake_thread() '
+                      '(the open failed first): the stop asserts on the '
+                      'missing thread, the AssertionError replaces the '
+                      'ENOENT that DiskStorage.load() skips over - the '
+                      'start-up scan ends at the first orphan file and the '
+                      'messages after it are never loaded' % meth,
+                      loc=sp.loc(), reason='a start on every path before',
+                      witness=dataflow.render_path(w, 14) if w else None)
+    if n < 2:
+        rep.error('anchor vanished: keep-awake stops in AioFile (%d < 2)'
                   % n)
